@@ -243,7 +243,14 @@ func genCase(t *rapid.T) Case {
 		// one-token corruptions
 		q := append([]string(nil), p...)
 		pos := g.Pick(len(q), "corrupt")
-		switch g.Pick(12, "how") {
+		switch g.Pick(14, "how") {
+		case 12, 13:
+			// a token with a module-like qualifier in front: names are not qualified in a path, so this is another name
+			at := 0
+			if g.Pick(3, "qualwhere") == 0 {
+				at = pos
+			}
+			q[at] = []string{"nosuch:", ":", "m0:", "m1:", "urn:verif:m0:", "m0-sub:"}[g.Pick(6, "qualifier")] + q[at]
 		case 10:
 			// a further token made of white space only: a token like any other (after a leaf value, after a leaf of type
 			// empty, as a key or a child name)
